@@ -72,6 +72,23 @@ def _cb_corrupt(evs, profile):
     return None
 
 
+def _budget_corrupt(evs, profile):
+    out = [dict(e) for e in evs]
+    # the balance observed once everything has returned is off by one
+    if out[-1].get('e') == 'ret' and out[-1].get('bal', 0) >= 1:
+        out[-1]['bal'] -= 1
+        return out
+    return None
+
+
+def _limit_corrupt(evs, profile):
+    out = [dict(e) for e in evs]
+    if len(out) > 2:
+        out[2]['limit'] = out[2]['hi'] + 1
+        return out
+    return None
+
+
 COMPONENTS = {
     'bulkhead': {
         'spec_files': ['Bulkhead.tla', 'MC_Bulkhead.tla', 'Trace_Bulkhead.tla'],
@@ -103,6 +120,22 @@ COMPONENTS = {
         'random': {'quick': [{'runs': 1500, 'args': ['--variant', 'conc']}], 'thorough': [{'runs': 20000, 'args': ['--variant', 'conc']}]},
         'corrupt': _cb_corrupt,
     },
+    'budget': {
+        'spec_files': ['BudgetImpl.tla', 'MC_BudgetImpl.tla', 'Budget.tla'],
+        'mc': {'quick': [{'cfg': 'MC_BudgetImpl.cfg', 'module': 'MC_BudgetImpl'}], 'thorough': [{'cfg': 'MC_BudgetImpl.cfg', 'module': 'MC_BudgetImpl'}]},
+        'trace_module': 'Budget', 'trace_cfg_tmpl': 'Trace_Budget.cfg.tmpl',
+        'harness': 'budget',
+        'random': {'quick': [{'runs': 0}], 'thorough': [{'runs': 0}]},
+        'corrupt': _budget_corrupt,
+    },
+    'limit': {
+        'spec_files': ['LimitImpl.tla', 'MC_LimitImpl.tla', 'Limit.tla'],
+        'mc': {'quick': [{'cfg': 'MC_LimitImpl.cfg', 'module': 'MC_LimitImpl'}], 'thorough': [{'cfg': 'MC_LimitImpl.cfg', 'module': 'MC_LimitImpl'}]},
+        'trace_module': 'Limit', 'trace_cfg_tmpl': 'Trace_Limit.cfg.tmpl',
+        'harness': 'limit',
+        'random': {'quick': [{'runs': 0}], 'thorough': [{'runs': 0}]},
+        'corrupt': _limit_corrupt,
+    },
 }
 
 PROPS = {
@@ -113,6 +146,7 @@ PROPS = {
     'C04': {'comp': 'circuitbreaker', 'profile': 'ProfC04',
             'gen': {'cfg': 'Gen_CB_seq.cfg', 'module': 'MC_CircuitBreaker', 'num': {'quick': 400, 'thorough': 5000}, 'depth': 45},
             'random': {'quick': [{'runs': 1200, 'args': ['--variant', 'seq']}], 'thorough': [{'runs': 6000, 'args': ['--variant', 'seq']}, {'runs': 3000, 'size': 'quick', 'args': ['--variant', 'seq']}]}},
+    'C08': {'comp': 'budget', 'profile': 'lin'},
     'C02': {'comp': 'ratelimiter', 'profile': 'ProfC02', 'drift_profile': 'ProfAll'},
     'C15': {'comp': 'ratelimiter', 'profile': 'ProfC15', 'drift_profile': 'ProfAll'},
 }
